@@ -26,7 +26,8 @@ META = dict(
     outside=["labelings beyond the enumerated set", "topologies beyond the catalogue (e.g. two-sided 'lens' cells)",
              "that a back-end's result is a function of the problem and not of the order of its rows/columns (trusted)"],
     assumptions=["tangent stub keyed by the physical (interface, junction) (contract: C02-A for both ends and both storage directions)",
-                 "pressure rows use the concrete catalogue geometry (curved interfaces), tensions symbolic"],
+                 "total curvature of an interface = fixed number per physical interface, negated for the opposite storage direction (C04)",
+                 "pressure solve: exact rational inverse; tensions symbolic"],
     trusted=["z3"],
 )
 
@@ -62,17 +63,39 @@ def _physical(env, fs, spec, b, vs, T):
         ln, d = tissue.line_of_big_edge(b, be.get_vertices_ids())
         peq[ln] = ({inv_map[kept[j]]: float(pm.lhs_matrix[e, j]) for j in range(len(kept)) if float(pm.lhs_matrix[e, j]) != 0}, pm.rhs_matrix[e])
     out["pressure"] = peq
+    # reported pressures per physical cell (exact rational inverse of the concrete bordered normal matrix, symbolic tensions)
+    sol = pm.solve_system(method="lagrange_pressure")
+    fr.assign_pressures(sol, pm.mapping_order)
+    out["cell_pressure"] = {b.cell_name[cid]: c.pressure for cid, c in fr.cells.items()}
     return out
 
 
 def labelings(env, topo, vmap, emap, reverse_insertion):
     import forsys as fs
-    spec = catalogue(topo, n_spoke=4, n_border=2, bulge=0.12)
+    spec = catalogue(topo, n_spoke=4, bulge=0.12) if topo.startswith("T3+") else catalogue(topo, n_spoke=4, n_border=2, bulge=0.12)
     names = [cn for cn, _ in spec.cells]
     internal = spec.internal_lines()
     T = {ln: env.real(f"T_{ln}") for ln in internal}
     ref_b = tissue.build(spec, fs)
     vs = VersorStub(env, fs, ref_b)
+    # cut (as in C04-O1c): the total curvature of an interface is a fixed exact number per physical interface, negated when
+    # the interface is stored in the opposite direction (what C04 proves); this keeps the right-hand sides of different
+    # labelings exactly comparable (float curvatures of reversed point lists differ in the last bits)
+    from fractions import Fraction
+    K = {}
+    tmp_fr = fs.frames.Frame(0, ref_b.vertices, ref_b.edges, ref_b.cells, time=0)
+    for be in tmp_fr.big_edges.values():
+        ln, d = tissue.line_of_big_edge(ref_b, be.get_vertices_ids())
+        K[ln] = d * Fraction(round(float(be.calculate_total_curvature(normalized=False)), 3)).limit_denominator(1000)
+    ref_b = tissue.build(spec, fs)
+    vs.builts = ref_b
+    orig_curv = fs.edge.BigEdge.calculate_total_curvature
+
+    def cut_curvature(be, normalized=True):
+        ln, d = tissue.line_of_big_edge(vs.builts, be.get_vertices_ids())
+        k = K[ln] * d
+        return k if env.mode == "sym" else float(k)
+    fs.edge.BigEdge.calculate_total_curvature = cut_curvature
     # general position (soft)
     for pn in spec.used_junctions():
         for ln in spec.lines_at(pn):
@@ -88,7 +111,7 @@ def labelings(env, topo, vmap, emap, reverse_insertion):
         flips_all = [set(c for c, bit in zip(names, bits) if bit) for bits in itertools.product((0, 1), repeat=len(names))]
         if len(flips_all) > 16:
             flips_all = flips_all[::len(flips_all) // 16][:16]
-        ok_dec, ok_force, ok_press = env.true(), env.true(), env.true()
+        ok_dec, ok_force, ok_press, ok_cellp = env.true(), env.true(), env.true(), env.true()
         count = 0
         for perm in perms:
             for flips in flips_all:
@@ -111,6 +134,8 @@ def labelings(env, topo, vmap, emap, reverse_insertion):
                                 ok_force = ok_force & (gx is not None)
                                 if gx is not None:
                                     ok_force = ok_force & env.eq(gx, rx) & env.eq(gy, ry)
+                    for cn, pv in ref["cell_pressure"].items():
+                        ok_cellp = ok_cellp & env.eq(got["cell_pressure"][cn], pv, tol=1e-9)
                     same_p = sorted(got["pressure"]) == sorted(ref["pressure"])
                     ok_press = ok_press & same_p
                     if same_p:
@@ -124,17 +149,19 @@ def labelings(env, topo, vmap, emap, reverse_insertion):
                                 ok_press = ok_press & False
     finally:
         vs.restore()
+        fs.edge.BigEdge.calculate_total_curvature = orig_curv
     env.note(f"{count} labelings compared with the reference")
     return [Ob("same-interfaces-and-separated-cells", ok_dec),
             Ob("same-force-equations-per-physical-junction", ok_force),
             Ob("same-pressure-equations-up-to-a-global-sign", ok_press),
+            Ob("same-reported-pressure-for-every-physical-cell", ok_cellp),
             Ob("labelings-compared", count >= 6)]
 
 
 def jobs(tier):
     js = []
     quick = tier == "quick"
-    for topo in (("T3", "K3-n0") if quick else ("T3", "K3-n0", "T4", "K3", "K4")):
+    for topo in (("T3", "K3-n0", "T3+pendant") if quick else ("T3", "K3-n0", "T3+pendant", "T3+2pendants", "T4", "K3", "K4")):
         for vmap, emap in ((("id", "gap"), ("der", "rev")) if quick else (("id", "id"), ("id", "gap"), ("der", "rev"), ("gap", "der"), ("rev", "id"))):
             for rev in (False, True):
                 if quick and rev and vmap == "der":
